@@ -81,9 +81,32 @@ package ldiff
 //@   sets cmpCalls = cmpCalls + 1
 //@   sets cmpMy = arg2
 //@   sets cmpOther = arg3
-//@ func (*diff).getRange
-//@   trusted
+//@ func (*hashRanges).getRange
+//@   pure
+//@ package github.com/huandu/skiplist
+//@ func (*SkipList).Find
 //@   modifies nothing
+//@ func (*Element).Next
+//@   modifies nothing
+//@ func (*Element).Key
+//@   modifies nothing
+//@   posits [keys_are_elements] typeis(result, "*ldiff.element") && ifaceptr(result) != nil
+//@ package github.com/anyproto/any-sync/app/ldiff
+// getRange answers one range: a range the tree tracks is answered with its hash (and, unless the
+// elements were asked for, its count and nothing else); a range the tree does not track, or one whose
+// elements were asked for, is answered by listing the elements - never by an empty count-only answer.
+//@ func (*diff).getRange
+//@   requires d != nil && d.ranges != nil && d.sl != nil
+//@   assumes 2 <= d.divideFactor && d.divideFactor <= 1048576
+//@   modifies nothing
+//@   ensures [tracked_range_answers_its_hash] d.ranges.getRange(r.From, r.To) != nil ==> result.Hash == d.ranges.getRange(r.From, r.To).hash
+//@   ensures [count_only_answer]              d.ranges.getRange(r.From, r.To) != nil && !r.Elements ==> result.Count == d.ranges.getRange(r.From, r.To).elements && len(result.Elements) == 0
+//@   ensures [otherwise_elements_are_listed]  d.ranges.getRange(r.From, r.To) == nil || r.Elements ==> fresh(result.Elements) && result.Count == len(result.Elements)
+//@   ensures [untracked_range_has_no_hash]    d.ranges.getRange(r.From, r.To) == nil ==> len(result.Hash) == 0
+//@   loop 0:
+//@     invariant rootof(rr.Elements) > 0 && d != nil && d.sl != nil
+//@     invariant d.ranges.getRange(r.From, r.To) == nil ==> len(rr.Hash) == 0
+//@     invariant d.ranges.getRange(r.From, r.To) != nil ==> rr.Hash == d.ranges.getRange(r.From, r.To).hash
 //@   sets grElements = r.Elements
 //@   sets grFrom = r.From
 //@   sets grTo = r.To
@@ -92,7 +115,7 @@ package ldiff
 //@   requires d != nil && dctx != nil
 //@   modifies fields diffCtx.prepare diffCtx.newIds diffCtx.changedIds diffCtx.theirChangedIds diffCtx.removedIds
 //@   modifies kinds string uint64 bool int
-//@   assumes dctx.compareFunc != nil
+//@   assumes dctx.compareFunc != nil && d.ranges != nil && d.sl != nil
 //@   assumes 2 <= d.divideFactor && d.divideFactor <= 1048576 && r.From <= r.To && r.To - r.From >= d.divideFactor - 1
 //@   ensures [skip_only_when_proved_equal] cmpCalls == old(cmpCalls) && len(dctx.prepare) == old(len(dctx.prepare)) ==> bytesEq(myRes.Hash, otherRes.Hash) && (len(myRes.Hash) != 0 || (myRes.Count == 0 && otherRes.Count == 0))
 //@   ensures [at_most_one_comparison] cmpCalls <= old(cmpCalls) + 1 && (cmpCalls > old(cmpCalls) ==> len(dctx.prepare) == old(len(dctx.prepare)))
@@ -154,6 +177,9 @@ package ldiff
 //@   ensures [ends_in_a_leaf] !rng.isDivided
 //@   loop 1:
 //@     invariant parent == rng.parent && !rng.isDivided
+//@   loop 2:
+//@     invariant -1 <= rangeindex && rangeindex < len(ranges)
+//@     invariant [merged_children_leave_the_map] forall k int :: 0 <= k && k <= rangeindex ==> !(ranges[k] in h.ranges)
 
 //@ func (*diff).Set
 //@   requires d != nil && d.sl != nil && d.ranges != nil
